@@ -263,6 +263,21 @@ CHECKS = {
         note=NOTE_COMMON + " Partial: the reader model has no allocation parameter, so the whole-reader statement is decided only on the enumerated (document, k, mode) triples.",
         technique="Lean 4 proof (builder invariant over arbitrary schedules; strategy-independence of the duplicate verdict) + correspondence check + exhaustive single/suffix fault enumeration under ASan",
     ),
+    "C17": dict(
+        category="proof",
+        text=("Lean theorems (Edn.Properties.C17): the model is a function of configuration, options and bytes (no history, addresses, heap or threads "
+              "exist in it; the input is an immutable value), and its answer is independent of every artefact it abstracts: the recursion budget, the order "
+              "in which the duplicate check examines elements (qsort/address order in C), which scratch allocations succeed, the state of the hash caches, "
+              "what follows a form in the buffer and which blanks precede it. That the compiled code computes this one function whatever the compiler, heap "
+              "and schedule is monitoring, not proof: generated, mutated, truncated and extension documents (incl. sets/maps of composites in the sorted-"
+              "strategy range) are read with message texts by gcc -O0/-O2/-O3, clang -O2 and ASan+UBSan builds (identical results, equal to the model); again "
+              "in shuffled order interleaved with unrelated reads under two MALLOC_PERTURB_ fill patterns and from read-only guard-page mappings (identical to "
+              "the first read); by 2, 4, 8 and 16 threads sharing input buffers and a read-only registry under ThreadSanitizer and -O2 (every dump equals "
+              "the single-threaded one, no race); nm audit: no writable global in the library objects besides the external-type table."),
+        design_ref="DESIGN.md section 6, C17",
+        note=NOTE_COMMON + " Partial: compiler, allocator and scheduler behaviour cannot be exhibited by the model; determinism across them is observed on the explored documents, builds and schedules only.",
+        technique="Lean 4 proof (independence lemmas over the functional model) + correspondence check across 5 builds + history/heap-pattern/thread monitoring (TSan)",
+    ),
     "C05": dict(
         category="proof",
         text=("Lean theorems (Edn.Properties.C05), with round-to-nearest-even defined in exact natural-number arithmetic: every entry of the "
@@ -310,7 +325,7 @@ def main():
             {"name": "impl-oracles", "path": "vlib/props/", "serves_properties": sorted(claimed), "kind_free_text": "per-property oracles on the real library that produce concrete failing inputs"},
         ],
         "checks": checks,
-        "not_applicable": [{"property_id": p, "reason": "check not built yet (work in progress; every property is planned, see DESIGN.md section 6)"}
+        "not_applicable": [{"property_id": p, "reason": "check not built yet"}
                            for p in props if p not in claimed],
         "notes": "Machine-checked proof in Lean 4 over a hand-written executable model; see DESIGN.md. Repaired defects are listed in known_findings.json.",
     }
